@@ -34,16 +34,21 @@ struct Config {
 }
 
 fn dec_config(src: &mut Source, allow_sampling: bool) -> Config {
-    Config {
+    let mut c = Config {
         aggressive: src.bool(),
         prefix: if src.bool() { Some(src.pick(&["app", "p.q", "x"]).to_string()) } else { None },
         globals: src.vec(2, |s| (s.pick(&["env", "dc", "host"]).to_string(), s.pick(&["", "prod", "a1"]).to_string())),
         distributions: src.bool(),
         sampling: allow_sampling && src.chance(64),
         reservoir: *src.pick(&[1usize, 2, 4, 16]),
-        max_len: *src.pick(&[8192usize, 1432, 120]),
+        max_len: *src.pick(&[8192usize, 1432, 120, 64, 100]),
         length_prefix: src.bool(),
+    };
+    if c.sampling {
+        // keep payload-size effects (a sample-rate section makes messages longer) out of the sampling identities
+        c.max_len = 8192;
     }
+    c
 }
 
 fn mk_driver(c: &Config) -> Driver {
@@ -103,6 +108,14 @@ fn check_common(c: &Config, m: &DsdMessage, own: &[(String, String)], mtype: &st
     Ok(())
 }
 
+/// Would a message holding exactly these value texts fit the configured payload limit?
+fn fits(c: &Config, name: &str, own: &[(String, String)], values: &[String], with_ts: bool) -> bool {
+    let tags: Vec<(String, String)> = c.globals.iter().chain(own.iter()).cloned().collect();
+    // a unix timestamp in seconds has 10 digits for the next two centuries
+    let ts = if with_ts { Some(1_000_000_000u64) } else { None };
+    super::c09::reference_len(name, &c.prefix, values, None, &tags, ts) <= c.max_len
+}
+
 // ---------------------------------------------------------------- sequential lane (exact model)
 
 #[derive(Debug, Clone)]
@@ -112,6 +125,7 @@ enum SStep {
     GaugeSet(usize, f64),
     GaugeInc(usize, f64),
     Record(usize, f64),
+    RecordMany(usize, f64, usize),
     Flush,
 }
 
@@ -131,6 +145,7 @@ fn decode_seq(src: &mut Source) -> SeqCase {
             3 => SStep::GaugeSet(src.below(2), src.f64_interesting()),
             4 => SStep::GaugeInc(src.below(2), src.f64_dyadic()),
             5 => SStep::Record(src.below(2), if src.bool() { src.f64_dyadic() } else { src.f64_interesting() }),
+            6 if src.bool() => SStep::RecordMany(src.below(2), *src.pick(&[1.5f64, 2.25, 10.0, 0.0, 123456.5]), 1 + src.below(90)),
             _ => SStep::Flush,
         })
         .collect();
@@ -198,6 +213,14 @@ fn case_seq(bytes: &[u8], _s: &[u8], ctx: &mut Ctx) -> Result<(), Fail> {
                 rec.register_histogram(&key(&format!("h{}", i)), &META).record(*v);
                 hists[*i].get_or_insert_with(Vec::new).push(*v);
             }
+            SStep::RecordMany(i, v, n) => {
+                // enough values for one flush to split them over several payloads
+                rec.register_histogram(&key(&format!("h{}", i)), &META).record_many(*v, *n);
+                for _ in 0..*n {
+                    hists[*i].get_or_insert_with(Vec::new).push(*v);
+                }
+                ctx.class("histogram-batch");
+            }
             SStep::Flush => {
                 if prev_was_flush && si < generated {
                     ctx.nontrivial("flush-after-flush-without-update");
@@ -225,6 +248,16 @@ fn case_seq(bytes: &[u8], _s: &[u8], ctx: &mut Ctx) -> Result<(), Fail> {
                             m.idle = true;
                             Some(0)
                         };
+                        // a message that cannot fit the payload limit is dropped by the writer (C09's business)
+                        let expect = match expect {
+                            Some(v) if !fits(c, &name, &own, &[v.to_string()], c.aggressive) => {
+                                ensure!(got.is_empty(), "oversized-message-sent", "counter {} message cannot fit {} bytes but was sent: {:?}", name, c.max_len, got);
+                                m.pending = 0;
+                                m.updates = 0;
+                                continue;
+                            }
+                            other => other,
+                        };
                         match expect {
                             None => ensure!(got.is_empty(), "idle-counter-sent-again", "counter {} was already sent as zero once and has not changed, but was sent again: {:?}", name, got),
                             Some(v) => {
@@ -246,6 +279,9 @@ fn case_seq(bytes: &[u8], _s: &[u8], ctx: &mut Ctx) -> Result<(), Fail> {
                     accounted += got.len();
                     match g {
                         None => ensure!(got.is_empty(), "message-for-unregistered-gauge", "{} never registered but sent", name),
+                        Some(v) if !fits(c, &name, &own, &[ryu::Buffer::new().format(*v).to_string()], c.aggressive) => {
+                            ensure!(got.is_empty(), "oversized-message-sent", "gauge {} message cannot fit {} bytes but was sent", name, c.max_len);
+                        }
                         Some(v) => {
                             ensure!(got.len() == 1, "gauge-not-sent-once", "gauge {}: every flush must carry its most recent value {:?}, got {:?}", name, v, got);
                             check_common(c, got[0], &own, "g")?;
@@ -259,6 +295,8 @@ fn case_seq(bytes: &[u8], _s: &[u8], ctx: &mut Ctx) -> Result<(), Fail> {
                     let got = of(c, &msgs, &name);
                     accounted += got.len();
                     let vals = h.as_mut().map(std::mem::take).unwrap_or_default();
+                    // values that cannot fit a payload even alone are dropped by the writer
+                    let vals: Vec<f64> = vals.into_iter().filter(|v| c.sampling || fits(c, &name, &own, &[ryu::Buffer::new().format(*v).to_string()], false)).collect();
                     let mut sent: Vec<f64> = vec![];
                     for m in &got {
                         check_common(c, m, &own, if c.distributions { "d" } else { "h" })?;
